@@ -20,6 +20,7 @@ import RedkaModel.Model.Wire.Resp
 import RedkaModel.Model.Conv
 import RedkaModel.Proofs.Num
 import RedkaModel.Proofs.Resp
+import RedkaModel.Proofs.Float
 
 namespace Redka.Props.C17
 
@@ -140,7 +141,32 @@ theorem tobytes_int_reads_back :
     ∀ n : Int, minInt64 ≤ n → n ≤ maxInt64 → valueInt (toBytes (.int n)) = some n :=
   valueInt_itoa
 
+/-- A `float64` value is stored as its canonical text — the shortest decimal that reads back as the same
+number (`strconv.FormatFloat(v, 'f', -1, 64)`) — and equals that text given as a string or a byte slice;
+read back as a number (`core.Value.Float`) it is exactly the float that was given. -/
+theorem tobytes_float_canonical : ∀ (d : Dyadic) (t : Bytes), argBytes (.float d) = some t →
+    argBytes (.val (.str t)) = some t ∧ argBytes (.val (.bytes t)) = some t ∧ parseFloatDec t = .val d :=
+  fun d t h => ⟨rfl, rfl, Redka.Float.parse_format d t h⟩
+
+/-- Different floats are stored as different texts. -/
+theorem tobytes_float_distinct : ∀ (a b : Dyadic) (t : Bytes),
+    argBytes (.float a) = some t → argBytes (.float b) = some t → a = b := by
+  intro a b t ha hb
+  have h1 := Redka.Float.parse_format a t ha
+  have h2 := Redka.Float.parse_format b t hb
+  rw [h1] at h2
+  injection h2
+
+/-- Every value of the four non-float types is accepted (the model never refuses one). -/
+theorem tobytes_total : ∀ v : GoVal, ∃ t, argBytes (.val v) = some t := fun v => ⟨_, rfl⟩
+
 /-! ### non-vacuity -/
+
+/-- 2^60 (a whole float above 2^53) is stored with its 16 shortest digits and zero padding, 0.1 as "0.1" -/
+example : argBytes (.float (Dyadic.ofIntWithPrec 1 (-60))) = some [49, 49, 53, 50, 57, 50, 49, 53, 48, 52, 54, 48, 54, 56, 52, 55, 48, 48, 48] := by
+  decide +kernel
+example : argBytes (.float (Dyadic.ofIntWithPrec 3602879701896397 55)) = some [48, 46, 49] := by decide +kernel
+
 
 /-- CR, LF, NUL and an invalid-UTF-8 byte in a bulk string: the exact wire bytes … -/
 example : encode (.bulk [13, 10, 0, 255]) = [36, 52, 13, 10, 13, 10, 0, 255, 13, 10] := by
